@@ -17,7 +17,7 @@ import CobaVerif.Model.C05
 namespace Coba.C09
 
 inductive Err
-  | typeError | indexError | valueError | zeroDivision | keyError | stepsExhausted
+  | typeError | indexError | valueError | zeroDivision | keyError | attributeError | stepsExhausted
 deriving Repr, DecidableEq
 
 /-! ## Shuffle -/
@@ -163,6 +163,34 @@ def lookupVal (k : Val) : List (Val × Val) → Option Val
   | [] => none
   | (k', v) :: r => if k' = k then some v else lookupVal k r
 
+/-- Python's `seq[k]` for an integer `k` (negative indices count from the end) -/
+def pyIndex {β} (l : List β) (k : Int) : Option β :=
+  if 0 ≤ k then l[k.toNat]? else if k + l.length < 0 then none else l[(k + l.length).toNat]?
+
+/-- `context[key]` (the list_sorter's subscription) -/
+def subscript (c : Ctx) (k : Val) : Except Err Val :=
+  match c, k with
+  | .dense vs, .num q =>
+    if q.den = 1 then (match pyIndex vs q.num with | some v => .ok v | none => .error .indexError)
+    else .error .typeError
+  | .dense _, .str _ => .error .typeError
+  | .scalar (.str s), .num q =>       -- a string is subscriptable: its k-th character
+    if q.den = 1 then (match pyIndex s q.num with | some ch => .ok (.str [ch]) | none => .error .indexError)
+    else .error .typeError
+  | .scalar (.str _), .str _ => .error .typeError
+  | .sparse kvs, k => (match lookupVal k kvs with | some v => .ok v | none => .error .keyError)
+  | .scalar (.num _), _ => .error .typeError     -- a number is not subscriptable
+  | .none, _ => .error .typeError
+
+def subscripts (c : Ctx) : List Val → Except Err Key
+  | [] => .ok []
+  | k :: ks =>
+    match subscript c k with
+    | .error e => .error e
+    | .ok v => match subscripts c ks with
+      | .error e => .error e
+      | .ok vs => .ok (v :: vs)
+
 /-- the three sorter lambdas of `Sort.filter` -/
 def sortKey (keys : List Val) (sparseFirst : Bool) (c : Ctx) : Except Err Key :=
   match keys with
@@ -176,16 +204,8 @@ def sortKey (keys : List Val) (sparseFirst : Bool) (c : Ctx) : Except Err Key :=
     if sparseFirst then   -- dict_sorter: context.get(key,0)
       match c with
       | .sparse kvs => .ok (keys.map (fun k => match lookupVal k kvs with | some v => v | none => .num 0))
-      | _ => .error .typeError
-    else                  -- list_sorter: context[key]
-      match c with
-      | .dense vs => keys.mapM (fun k =>
-          match k with
-          | .num q => if q.den = 1 ∧ 0 ≤ q.num then
-                        (match vs[q.num.toNat]? with | some v => .ok v | none => .error .indexError)
-                      else .error .indexError
-          | .str _ => .error .typeError)
-      | _ => .error .typeError
+      | _ => .error .attributeError                -- only a dict has `.get`
+    else subscripts c keys  -- list_sorter: context[key]
 
 /-- stable insertion: `a` goes before the first element that is not smaller -/
 def insertBy {α} (le : α → α → Bool) (a : α) : List α → List α
@@ -407,5 +427,188 @@ def readSpec {α} (items : List α) : Option Nat → List α
 
 /-! ## Identity, Chunk, Params -/
 def identityF {α} (xs : List α) : List α := xs
+
+/-! # Phase 2 -/
+
+/-! ## Seeds of every kind.  `CobaRandom(seed)`: an `int` or an integral `float` is used as an
+integer; anything else goes through `int.from_bytes(str(seed).encode()) % 2**20`
+(`str` itself is CPython's: the bytes are handed in). -/
+
+inductive Seed
+  | int (i : Int)
+  | bytes (bs : List Nat)
+deriving Repr
+
+def Seed.norm : Seed → Nat
+  | .int i => C05.normInt i
+  | .bytes bs => C05.normBytes bs
+
+def shuffleSeeded {α} (sd : Seed) (xs : List α) : List α := pShuffle sd.norm xs
+/-- `environments.Shuffle(seed)`: `lsd` is the seed `seed*3.21` (a float product, computed outside) -/
+def eShuffleSeeded {α} (isLogged : α → Bool) (sd lsd : Seed) (xs : List α) : List α :=
+  eShuffle isLogged sd.norm lsd.norm xs
+def riffleSeeded {α} (spacing : Nat) (sd : Seed) (xs : List α) : List α := riffle spacing sd.norm xs
+
+/-! ## Reservoir with the actual formulas over an abstract float arithmetic.
+`R` is the number type (`Float` in the driver, anything in the theorems); the operations are the
+ones the loop uses, in the order it uses them:
+`W = W*r1**x; S = floor(log(r2, 1-W)); slot = int(r3*count)`, `math.log(a,b) = log(a)/log(b)`. -/
+
+structure FloatOps (R : Type) where
+  ofUnif : Nat → R             -- k ↦ k / 2^30   (a uniform)
+  one : R
+  inv : Nat → R                -- 1/count
+  mul : R → R → R
+  pw : R → R → R               -- r ** x
+  oneMinus : R → R             -- 1 - W
+  lg : R → R                   -- natural log on its domain
+  pos : R → Bool               -- 0 < x   (outside: `math domain error`)
+  isZero : R → Bool            -- a zero divisor
+  quotFloor : R → R → Nat      -- floor(a / b)
+  slot : R → Nat → Nat         -- int(r3 * count)
+
+/-- one loop iteration: the new `W` and what happens -/
+def floatStep {R} (ops : FloatOps R) (count : Nat) (W : R) (k1 k2 k3 : Nat) : R × Step :=
+  let W' := ops.mul W (ops.pw (ops.ofUnif k1) (ops.inv count))
+  let r2 := ops.ofUnif k2
+  if !ops.pos r2 then (W', .raise .valueError)          -- log(r2)
+  else
+    let base := ops.oneMinus W'
+    if !ops.pos base then (W', .raise .valueError)      -- log(1-W)
+    else
+      let d := ops.lg base
+      if ops.isZero d then (W', .raise .zeroDivision)   -- log(r2)/log(1-W)
+      else (W', .skip (ops.quotFloor (ops.lg r2) d) (ops.slot (ops.ofUnif k3) count))
+
+/-- does the guard of fix C09-F1 let the triple through (`if r1 == 0 or r2 == 0: continue`) -/
+def guardOk (t : Nat × Nat × Nat) : Bool := !(t.1 == 0 || t.2.1 == 0)
+
+/-- the steps the loop performs on a stream of uniform triples (numerators); stops at a raise -/
+def floatSteps {R} (ops : FloatOps R) (count : Nat) : R → List (Nat × Nat × Nat) → List Step
+  | _, [] => []
+  | W, t :: ts =>
+    if guardOk t then
+      match floatStep ops count W t.1 t.2.1 t.2.2 with
+      | (_, .raise e) => [.raise e]
+      | (W', st) => st :: floatSteps ops count W' ts
+    else floatSteps ops count W ts
+
+/-- consecutive LCG uniforms, three at a time -/
+def triples : Nat → Nat → List (Nat × Nat × Nat)
+  | _, 0 => []
+  | s, n+1 =>
+    let s1 := C05.next s
+    let s2 := C05.next s1
+    let s3 := C05.next s2
+    (s1, s2, s3) :: triples s3 n
+
+/-- `Reservoir(count, strict, seed).filter` with nothing handed in: uniforms from the LCG after the
+initial shuffle, steps by the float formulas (`nT` triples are enough when `nT` exceeds the length
+by the number of guarded triples) -/
+def reservoirF {R α} (ops : FloatOps R) (count : Option Nat) (strict : Bool) (s nT : Nat) (xs : List α) :
+    Except Err (List α) :=
+  let steps := match count with
+    | some n => floatSteps ops n ops.one (triples (reservoirState count s xs) nT)
+    | none => []
+  reservoir count strict s steps xs
+
+/-- what the proof of `reservoir_total` needs of the arithmetic; `U x` reads "x is strictly
+between 0 and 1".  All laws hold for real arithmetic.  IEEE doubles break `oneMinus_unit`
+(`1-W == 1.0` for `W < 2^-53`), `mul_unit` (underflow to 0) and `pw_unit` (`r**x == 1.0` for
+`x < 2^-24`, `r = 1-2^-30`). -/
+structure FloatLaws {R} (ops : FloatOps R) (U : R → Prop) : Prop where
+  unif : ∀ k, 0 < k → k < C05.M → U (ops.ofUnif k)
+  pw_unit : ∀ r n, U r → 0 < n → U (ops.pw r (ops.inv n))
+  mul_one : ∀ p, U p → U (ops.mul ops.one p)
+  mul_unit : ∀ w p, U w → U p → U (ops.mul w p)
+  oneMinus_unit : ∀ w, U w → U (ops.oneMinus w)
+  pos_unit : ∀ r, U r → ops.pos r = true
+  lg_ne_zero : ∀ r, U r → ops.isZero (ops.lg r) = false
+  slot_lt : ∀ k n, k < C05.M → 0 < n → ops.slot (ops.ofUnif k) n < n
+
+/-- exact rational stand-in (logarithm replaced by `r-1`, power by `r`): shows the laws are
+satisfiable and is used for closed-term witnesses -/
+def ratOps : FloatOps Rat where
+  ofUnif k := (k : Rat) / (C05.M : Rat)
+  one := 1
+  inv n := 1 / (n : Rat)
+  mul a b := a * b
+  pw r _ := r
+  oneMinus w := 1 - w
+  lg r := r - 1
+  pos x := decide (0 < x)
+  isZero x := decide (x = 0)
+  quotFloor a b := (a / b).floor.toNat
+  slot r n := (r * (n : Rat)).floor.toNat
+
+/-- the same with the rounding of `1-W` to 53 bits imitated: below 2^-53 the difference is 1 -/
+def roundingOps : FloatOps Rat :=
+  { ratOps with oneMinus := fun w => if w < 1 / 9007199254740992 then 1 else 1 - w }
+
+/-! ## BatchSafe -/
+
+/-- `len(first_val) if is_batch(first_val) else None` on the first interaction (0 = falsy) -/
+def firstBatchSize {V} : Batched V → Nat
+  | .plain _ => 0
+  | .batch [] => 0
+  | .batch ((_, vs) :: _) => vs.length
+
+/-- `BatchSafe(G).filter`: nothing for an empty input; un-batched input goes straight through `G`;
+batched input is unbatched, filtered and re-batched with the size of the first batch.
+`G` works on interactions as they come (batched or not). -/
+def batchSafe {V} (G : List (Batched V) → Except Err (List (Batched V))) :
+    List (Batched V) → Except Err (List (Batched V))
+  | [] => .ok []
+  | first :: rest =>
+    let bs := firstBatchSize first
+    if bs = 0 then G (first :: rest)
+    else
+      match G ((unbatchF (first :: rest)).map .plain) with
+      | .error e => .error e
+      | .ok ys => batchF bs (unbatchF ys)
+
+/-- a filter on records seen as a filter on (un-batched) interactions -/
+def liftF {V} (F : List (Rec V) → Except Err (List (Rec V))) (xs : List (Batched V)) :
+    Except Err (List (Batched V)) :=
+  match F (unbatchF xs) with
+  | .error e => .error e
+  | .ok ys => .ok (ys.map .plain)
+
+/-! ## Collections of environments.  A filter object is a state machine: `read st env k` is one
+read of its pipeline on environment `env` of which the caller consumes `k` items (`none`: all). -/
+
+structure Filt (σ E β : Type) where
+  init : σ
+  read : σ → E → Option Nat → σ × β
+
+/-- `Environments(env_0, env_1, …).<shortcut>()`: one FRESH filter object per environment
+(`st k` = state of the filter attached to environment `k`); a history of reads `(k, consumed)` -/
+def runColl {σ E β} (f : Filt σ E β) (envs : Nat → E) (st : Nat → σ) : List (Nat × Option Nat) → List (Nat × β)
+  | [] => []
+  | (k, c) :: h =>
+    let r := f.read (st k) (envs k) c
+    (k, r.2) :: runColl f envs (fun j => if j = k then r.1 else st j) h
+
+/-- the reads of one environment with its own filter object, alone -/
+def runAlone {σ E β} (f : Filt σ E β) (env : E) : σ → List (Option Nat) → List β
+  | _, [] => []
+  | s, c :: cs => let r := f.read s env c; r.2 :: runAlone f env r.1 cs
+
+/-- what a (wrong) implementation sharing ONE filter object between all environments computes -/
+def runShared {σ E β} (f : Filt σ E β) (envs : Nat → E) : σ → List (Nat × Option Nat) → List (Nat × β)
+  | _, [] => []
+  | s, (k, c) :: h => let r := f.read s (envs k) c; (k, r.2) :: runShared f envs r.1 h
+
+/-- `Cache(nSlice)` as a filter object -/
+def cacheFilt {α} (nSlice : Nat) : Filt (Option (CacheSt α)) (List α) (List α) where
+  init := none
+  read st items k := cacheRead nSlice items st k
+
+/-- a filter without state (everything else): a read consumed up to `k` delivers a prefix -/
+def statelessFilt {E α} (F : E → Except Err (List α)) : Filt Unit E (Except Err (List α)) where
+  init := ()
+  read _ env k := ((), match k with
+    | none => F env
+    | some k => match F env with | .ok l => .ok (l.take k) | .error e => .error e)
 
 end Coba.C09
